@@ -58,6 +58,13 @@ def replay_ops(ops):
             continue
         elif o == "new_doc":
             w.new_doc()
+        elif o == "new_from":
+            w.new_doc_from(op["recs"], op.get("bundle", False))
+        elif o == "factory":
+            w.factory(op["c"], op["f"], dec_name(op["id"]), [dec_value(w, a) for a in op["args"]],
+                      dec_attrs(w, op["other"]) if op["other"] else None)
+        elif o == "conv":
+            w.conv(op["r"], op["m"], [dec_value(w, a) for a in op["args"]], dec_attrs(w, op["other"]) if op["other"] else None)
         elif o == "add_ns":
             w.add_ns(op["c"], op["p"], op["u"])
         elif o == "set_default":
